@@ -105,31 +105,86 @@ def lemma_comment_prefix():
 
 
 # ---------------------------------------------------------------- L.dbml-literal-roundtrip
+def extracted_sub_pairs(fn):
+    """(pattern, template, [(literal, replacement)...]) read from the *source* of a function of the shape
+    `pattern = re.compile(<constant>); return pattern.sub(<constant>, <its parameter>)` (docstring allowed), through
+    the same source extraction the P obligations use.  Any other shape: Untranslatable."""
+    import ast
+    from .engine import func_ast
+    from . import regex as RX
+    node = func_ast(fn)
+    body = [b for b in node.body if not (isinstance(b, ast.Expr) and isinstance(b.value, ast.Constant))]
+    params = [a.arg for a in node.args.args]
+    try:
+        asg, ret = body
+        assert isinstance(asg, ast.Assign) and len(asg.targets) == 1 and isinstance(asg.targets[0], ast.Name)
+        call = asg.value
+        assert isinstance(call, ast.Call) and ast.unparse(call.func) == 're.compile' and len(call.args) == 1 \
+            and not call.keywords and isinstance(call.args[0], ast.Constant) and isinstance(call.args[0].value, str)
+        assert isinstance(ret, ast.Return) and isinstance(ret.value, ast.Call)
+        sub = ret.value
+        assert ast.unparse(sub.func) == asg.targets[0].id + '.sub' and len(sub.args) == 2 and not sub.keywords
+        assert isinstance(sub.args[0], ast.Constant) and isinstance(sub.args[0].value, str)
+        assert isinstance(sub.args[1], ast.Name) and sub.args[1].id == params[0] and len(params) == 1
+    except (AssertionError, ValueError):
+        raise RX.Untranslatable('the function is not `pattern = re.compile(CONST); return pattern.sub(CONST, param)`')
+    pat, tpl = call.args[0].value, sub.args[0].value
+    return pat, tpl, RX.alt_literal_sub(pat, tpl)
+
+
+def _dbml_pairs():
+    from pydbml.renderer.dbml.default.utils import prepare_text_for_dbml as real
+    return extracted_sub_pairs(real)
+
+
+Q3 = "'" * 3
+
+
 def lemma_dbml_literal():
     """For a text with no run of three quotes: reading the literal '<esc(text)>' with pyparsing's
     QuotedString (escape character backslash, whitespace escapes not converted) gives text back,
-    and the literal does not end early (no unescaped quote inside)."""
+    and the literal does not end early (no unescaped quote inside).
+
+    `esc` is NOT a hand-written reading: its one-step unfolding is generated from the pattern and the template
+    found in the source of prepare_text_for_dbml on this run (extracted_sub_pairs / pyvc.regex.alt_literal_sub:
+    ordered alternation of literals, the first alternative that is a prefix of the rest is replaced, otherwise the
+    character is copied).  `unesc`/`bare` are the reading of pyparsing's QuotedString(esc_char=backslash)."""
+    pat, tpl, pairs = _dbml_pairs()
     esc = z3.Function('esc', S, S)
     unesc = z3.Function('unesc', S, S)
     bare = z3.Function('bare', S, B)            # the string contains an unescaped quote
     c, t = z3.String('c'), z3.String('t')
-    bs, q = _str('\\'), _str("'")
+    bs, q, q3 = _str('\\'), _str("'"), _str(Q3)
     special = z3.Or(c == bs, c == q)
+    w = z3.Concat(c, t)
     u = esc(t)
-    defs = [
-        z3.Length(c) == 1,
+    # generated unfolding of esc at c ++ t: first alternative (in pattern order) that is a prefix of c ++ t
+    unfold = z3.Concat(c, u)
+    side = []
+    for k, (lit, rep) in reversed(list(enumerate(pairs))):
+        if len(lit) == 1:
+            unfold = z3.If(c == _str(lit), z3.Concat(_str(rep), u), unfold)
+        else:
+            rest = z3.String(f'rest{k}')
+            side.append(z3.Implies(z3.PrefixOf(_str(lit), w), w == z3.Concat(_str(lit), rest)))
+            unfold = z3.If(z3.PrefixOf(_str(lit), w), z3.Concat(_str(rep), esc(rest)), unfold)
+    no3 = z3.Not(z3.Contains(w, q3))
+    defs = side + [
+        z3.Length(c) == 1, no3,
         esc(_str('')) == _str(''), unesc(_str('')) == _str(''), z3.Not(bare(_str(''))),
-        # re.sub(r"(\\|'''|')", r'\\\1'): with no ''' in the text each character is handled alone
-        esc(z3.Concat(c, t)) == z3.If(special, z3.Concat(bs, c, u), z3.Concat(c, u)),
-        # QuotedString(esc_char='\\'): backslash + d reads as d; anything else is copied
+        esc(w) == unfold,
+        # QuotedString(esc_char=backslash): backslash + d reads as d; anything else is copied
         unesc(z3.Concat(bs, c, u)) == z3.Concat(c, unesc(u)),
         z3.Implies(z3.Not(special), unesc(z3.Concat(c, u)) == z3.Concat(c, unesc(u))),
         bare(z3.Concat(bs, c, u)) == bare(u),
         z3.Implies(z3.Not(special), bare(z3.Concat(c, u)) == bare(u)),
+        bare(z3.Concat(q, u)),                      # an unescaped quote at the front ends the literal early
     ]
+    ih_ok = z3.Not(z3.Contains(t, q3))              # the tail has no run of three quotes either: hypothesis applies
     yield 'base', defs, z3.And(unesc(esc(_str(''))) == _str(''), z3.Not(bare(esc(_str('')))))
-    yield 'step-roundtrip', defs + [unesc(esc(t)) == t], unesc(esc(z3.Concat(c, t))) == z3.Concat(c, t)
-    yield 'step-no-early-end', defs + [z3.Not(bare(esc(t)))], z3.Not(bare(esc(z3.Concat(c, t))))
+    yield 'tail-has-no-triple', [z3.Length(c) == 1, no3], ih_ok
+    yield 'step-roundtrip', defs + [z3.Implies(ih_ok, unesc(esc(t)) == t)], unesc(esc(w)) == w
+    yield 'step-no-early-end', defs + [z3.Implies(ih_ok, z3.Not(bare(esc(t))))], z3.Not(bare(esc(w)))
 
 
 # ---------------------------------------------------------------- L.sql-literal
@@ -189,17 +244,25 @@ def defs_format_unescape(w):
 
 
 def defs_dbml_literal(w):
+    import re
     from pydbml.renderer.dbml.default.utils import prepare_text_for_dbml as real
     from pydbml.definitions.generic import string_literal
-    if "'''" in w:
+    from . import regex as RX
+    # (1) the reading of re.sub on an ordered alternation of literals (pyvc/regex.py) against CPython, on every
+    #     word (runs of three quotes included), and the extracted pattern against the function itself
+    try:
+        pat, tpl, pairs = _dbml_pairs()
+    except RX.Untranslatable:
+        pairs = None            # the function no longer has the extractable shape: the lemma is undecided, not wrong
+    if pairs is not None:
+        want = RX.sub_reference(pairs, w)
+        if want != re.compile(pat).sub(tpl, w):
+            return f're.compile({pat!r}).sub({tpl!r}, {w!r}) = {re.compile(pat).sub(tpl, w)!r}; the reading gives {want!r}'
+        if want != real(w):
+            return f'prepare_text_for_dbml({w!r}) = {real(w)!r} is not what its extracted pattern gives: {want!r}'
+    if Q3 in w or '\n' in w:
         return None
-    if w:
-        c, t = w[0], w[1:]
-        x = '\\' + c if c in "\\'" else c
-        if real(c + t) != x + real(t):
-            return f'prepare_text_for_dbml({c + t!r}) = {real(c + t)!r} is not {x!r} + prepare_text_for_dbml({t!r})'
-    if '\n' in w:
-        return None
+    # (2) the reading of QuotedString: the single-quoted literal reads back as the text
     back = string_literal.parse_string("'" + real(w) + "'", parse_all=True)[0]
     if back != w:
         return f'the literal of {w!r} reads back as {back!r}'
@@ -259,7 +322,15 @@ def run_lemmas(prop: str) -> List[OblResult]:
     for lid, props, gen, text in LEMMAS:
         if prop not in props:
             continue
-        for case, hyps, goal in gen():
+        try:
+            cases = list(gen())
+        except Exception as e:      # the definitions could not be extracted from the source: undecided, never a violation
+            out.append(OblResult(id=f'{prop}.{lid}.definition', kind='L', verdict=UNDECIDED, backend='z3-5.1.0',
+                                 function=gen.__name__,
+                                 detail=f'the definitions of the lemma cannot be extracted from the current source: '
+                                        f'{type(e).__name__}: {e}'[:300]))
+            continue
+        for case, hyps, goal in cases:
             t0 = time.time()
             r = OblResult(id=f'{prop}.{lid}.{case}', kind='L', verdict=DISCHARGED, backend='z3-5.1.0',
                           detail=text, function=gen.__name__)
